@@ -178,5 +178,18 @@ func Verif_C04_HTTPStream() {
 	if behaviour == 3 && final != io.EOF && isStatus && !ended {
 		zv.Assert(st.Code() == codes.Canceled, "handler-context-error-maps-to-matching-code")
 	}
+	// receives after the end, once the call has settled completely (the reader has
+	// recorded whatever it met last, e.g. a read that failed half way through the
+	// trailer frame because the context ended): still the end of the stream or a
+	// status, never a bare error
+	if zv.Bool("client-receives-again-after-the-end") {
+		zv.Quiesce()
+		again := cs.RecvMsg(&verifMsg{})
+		_, againStatus := status.FromError(again)
+		zv.Assert(again == io.EOF || (again != nil && againStatus), "later-receive-is-end-of-stream-or-a-grpc-status")
+		if final == io.EOF {
+			zv.Assert(again == io.EOF, "later-receive-after-success-is-end-of-stream")
+		}
+	}
 	zv.CheckLeaks()
 }
